@@ -49,6 +49,7 @@ def vkindName : VKind → String
 
 def errName : Err → String
   | .keyError => "KeyError" | .valueError => "ValueError" | .recursion => "RecursionError"
+  | .indexError => "IndexError"
 
 def opOf : String → Except String Op
   | "expand" => .ok .expand | "shrink" => .ok .shrink | "copy" => .ok .copy | "str" => .ok .str
@@ -65,10 +66,10 @@ def entryJson (e : Entry) : Json :=
 
 /-- the object after each operation: printed form (and the def-validator kinds for `validate`), or the
 exception class at which the history stops -/
-def runSteps (fix srt : Bool) (dd : DefDict) : Obj → List (String × Op) → List Json
+def runSteps (fix srt cpy : Bool) (dd : DefDict) : Obj → List (String × Op) → List Json
   | _, [] => []
   | o, (nm, op) :: rest =>
-    match stepG foldAscii fix dd o op with
+    match stepG foldAscii fix cpy dd o op with
     | .error e => [jobj [("err", Json.str (errName e))]]
     | .ok o' =>
       let base := [("s", jstr (strL o'.kids))]
@@ -76,7 +77,7 @@ def runSteps (fix srt : Bool) (dd : DefDict) : Obj → List (String × Op) → L
           [("v", jarr ((validateDefs foldAscii srt dd o'.kids).map fun k => Json.str (vkindName k)))]
         else if nm == "sorted" then [("sorted", jstr (strL (sortG foldAscii o'.kids)))]
         else []
-      jobj (base ++ extra) :: runSteps fix srt dd o' rest
+      jobj (base ++ extra) :: runSteps fix srt cpy dd o' rest
 
 def handle (op : String) (j : Json) : Option (Except String Json) :=
   match op with
@@ -95,7 +96,20 @@ def handle (op : String) (j : Json) : Option (Except String Json) :=
       let dd := (buildDict strings).1
       let o : Obj := { kids := kids }
       pure <| jobj [("start", jstr (strL kids)),
-                    ("steps", jarr (runSteps (getBoolD j "fix" true) (getBoolD j "sorted" true) dd o ops))]
+                    ("steps", jarr (runSteps (getBoolD j "fix" true) (getBoolD j "sorted" true) (getBoolD j "copytag" true) dd o ops))]
+  | "c09.gather" => some do
+      -- known definitions (strings), then the cells; answer: final dictionary, errors, number of ambiguous pairs
+      let strings ← (← getArr j "defs").mapM kidsOf
+      let cells ← (← getArr j "cells").mapM kidsOf
+      let st0 : GState := { dd := (buildDict strings).1 }
+      let pairs := cells.flatMap dePairs
+      match gatherAll foldAscii (getBoolD j "gfix" false) st0 pairs with
+      | .error e => pure <| jobj [("err", Json.str (errName e))]
+      | .ok st =>
+        pure <| jobj [("defs", jarr (st.dd.map entryJson)),
+                      ("errors", jarr (st.errors.map fun e =>
+                         jarr [jstr e.1, jarr (e.2.map fun g => jstr (Defs.str (Defs.Node.grp g)))])),
+                      ("ambiguous", jnat st.ambiguous.length)]
   | _ => none
 
 end HedVerif.Driver.C09
